@@ -61,6 +61,7 @@ InStateInputs ==
     IF stack # <<>> /\ stack[Len(stack)] = sh.default
     THEN {}
     ELSE {[e |-> "ns", s |-> s] : s \in NonDef} \cup {[e |-> "done"]}
+         \cup (IF UseInit /\ ~sh.auto THEN {[e |-> "engage", init |-> None, force |-> f] : f \in BOOLEAN} ELSE {})
          \cup (IF Len(stack) < MaxDepth THEN {[e |-> "nsnow", s |-> s] : s \in NonDef} ELSE {})
 Inputs ==
     IF AtTop
